@@ -1311,9 +1311,10 @@ def to_big_endian(array, inplace=False, keep_dtype=False):
             doswap = True
     else:
         # assume all are same byte order: we only need to find one with
-        # little endian
+        # little endian.  Fields without a byte order (strings, single
+        # bytes) are neither big nor little endian and must not decide.
         for fname in array.dtype.names:
-            if not is_big_endian(array[fname]):
+            if is_little_endian(array[fname]):
                 doswap = True
                 break
 
@@ -1358,9 +1359,10 @@ def to_little_endian(array, inplace=False, keep_dtype=False):
             doswap = True
     else:
         # assume all are same byte order: we only need to find one with
-        # little endian
+        # big endian.  Fields without a byte order (strings, single
+        # bytes) are neither big nor little endian and must not decide.
         for fname in array.dtype.names:
-            if not is_little_endian(array[fname]):
+            if is_big_endian(array[fname]):
                 doswap = True
                 break
 
